@@ -279,15 +279,16 @@ class PulseCoupledOscillator(Process):
         :param n: the node that fired
         :param m: the node being updated as a result of n firing'''
 
-        # get the state
-        state = self.getState(t, m)
-        if state == 1.0 or state == 0.0:
+        # get the phase (not the state: phaseToState(1.0) needn't be exactly 1.0
+        # in floating point for every dissipation)
+        phi = self.getPhase(t, m)
+        if phi == 1.0 or phi == 0.0:
             # already synchronised, and so will fire itself on schedule
             #print(f'pass {m}')
             pass
         else:
             # we're not synchronised, change phase
-            newPhase = self.bumpPhase(self.getPhase(t, m))
+            newPhase = self.bumpPhase(phi)
             self.setPhase(t, m, newPhase)
             newState = self.getPhase(t, m)
             if newState == 1.0 or newState == 0.0:
